@@ -71,7 +71,10 @@ def v3000_random_sessions(rng, tier, n):
         lines, info = textgen.render_v3000(M, rng, perm=perm)
         # the molecule as the FILE lists it: atom k of M is the perm[k]-th atom
         Mf = permuted(M, perm)
-        a = S.read(lines, "V3000", "C07", mol=textgen.mol_event(Mf), floats=textgen.floats_of(M), eol=rng.choice(["\n", "\n", "\r\n"]))
+        via_file = rng.random() < 0.15
+        if via_file and UTF8_FILES:
+            lines[rng.choice([0, 2])] = rng.choice(textgen.UNICODE_HEADERS)      # title / comment line in the file's encoding
+        a = S.read(lines, "V3000", "C07", mol=textgen.mol_event(Mf), floats=textgen.floats_of(M), eol=rng.choice(["\n", "\n", "\r\n"]), via_file=via_file)
         # the same spelling with the defaults written out / left out: the reader must return the same graph
         if rng.random() < 0.6:
             st = rng.getstate()
